@@ -10,7 +10,7 @@ Also: instruction lists alone (split round trip), tables alone (CIE/FDE objects 
 from instruction lists, so operands are unbounded), and raw/mutated byte strings (model drift)."""
 import io, sys
 
-CLAIMED = False
+CLAIMED = True
 CONFIG = {'assumptions': [
     'stream = BytesIO over exactly the section bytes, size = len(bytes), base_structs = DWARFStructs(le, 32, address_size) '
     'as DWARFInfo.CFI_entries / EH_CFI_entries pass them',
@@ -20,18 +20,25 @@ CONFIG = {'assumptions': [
     "augmentation 'S' is observed as the presence of a True-valued flag key in augmentation_dict; the personality "
     'routine as (encoding byte, encoded value)',
     'register rules of a row are compared as a finite map (sorted by register number)']}
-LEVEL = {'text': 'Machine-checked: (1) every well-formed .debug_frame/.eh_frame section built by the Coq encoders '
-                 '(all producer choices as arguments) is parsed by the model into exactly the expected entries - order, '
-                 'kind, header fields, augmentation dict/bytes, pc-relative initial location, range, LSDA pointer, '
-                 'FDE->CIE link for any interleaving; (2) parse_instructions inverts encode_instrs for all instruction '
-                 'lists; (3) the model of _decode_CFI_table equals the DWARF 6.4 reference interpreter for all '
-                 'instruction lists and alignment factors, by induction with a simulation relation, on the domain where '
-                 'the final row carries a rule (the complement is a known finding with a refutation theorem); (4) the '
-                 'DW_CFA_* constants, _OPCODE_NAME_MAP and _eh_encoding_to_field regenerated from the live module equal '
-                 'the standard tables. The model is pinned to the code by the differential correspondence.',
-         'design_ref': '4.6', 'technique': 'Coq proof (induction, simulation relation, cursor lemmas) + extracted-model correspondence',
+LEVEL = {'text': 'Machine-checked (Props/C06.v, 18 theorems, closed under the global context): (1) entries round trip: every '
+                 'well-formed .debug_frame/.eh_frame section built by the Coq encoders (all producer choices as arguments: '
+                 'CIE v1/3/4, DWARF32/64, address size 4/8, byte order, augmentations "" and z+RLPS in any order, nine '
+                 'pointer formats x absolute/pcrel, section address, LEB128 paddings, FDE before or after its CIE, zero '
+                 'terminators) is parsed by the model of get_entries into exactly the expected objects in order - kind, '
+                 'offset, header fields, augmentation dict/bytes, pc-relative initial location, range, LSDA pointer, '
+                 'split instructions, FDE.cie = the object of the designated CIE (cache invariant through the recursion '
+                 'of _parse_entry_at); (2) parse_instructions inverts encode_instrs for all instruction lists at any '
+                 'stream position; (3) the model of _decode_CFI_table equals the DWARF 6.4 reference interpreter for all '
+                 'instruction lists and alignment factors (simulation relation, induction), on the domain where the '
+                 'final row carries a rule - the complement is a known finding with refutation theorems; lifted to the '
+                 'entries of a section (C06_section_tables); (4) the DW_CFA_* constants, _OPCODE_NAME_MAP, masks and '
+                 '_eh_encoding_to_field regenerated from the live module equal the standard tables. The hand model is '
+                 'pinned to the code by the differential correspondence (impl vs model vs spec on every case).',
+         'design_ref': '4.6', 'technique': 'Coq proof (induction, simulation relation, cursor lemmas, cache invariant) + extracted-model correspondence',
          'note': 'Trusted: Coq kernel, ExtrOcamlBasic extraction, harness adapters, the specs written from DWARF 5 '
-                 '6.4/7.24 and the LSB .eh_frame description. No axioms.'}
+                 '6.4/7.24 and the LSB .eh_frame description. No axioms. Out of the theorems: pc-relative values are '
+                 'unbounded integers (no wrap modulo the address size), DW_CFA_set_loc in .eh_frame only under the '
+                 'absolute encoding, modifiers other than absolute/pcrel, .eh_frame in the 64-bit format.'}
 
 RULE = ('cases: (a) sections of 1..8 entries over {.debug_frame v1/3/4, DWARF32/64, address size 4/8, both byte orders} '
         'and {.eh_frame, augmentation "" or z+permutation of a subset of R L P S, nine value formats x absolute/pcrel, '
